@@ -147,6 +147,11 @@ class MinErrorFlow():
             if self.sparsity_lambda != 0:
                 utils.logger.error(f"{__name__}: You cannot set sparsity_lambda != 0 for a graph with cycles.")
                 raise ValueError(f"You cannot set sparsity_lambda != 0 for a graph with cycles.")
+            # (additional start / end nodes are implemented through the s-t graph of the acyclic branch only: on a graph with cycles they
+            # were dropped without a word - the corrected flow was then not the closest one - and not even checked to be nodes of the graph)
+            if len(list(additional_starts_internal)) + len(list(additional_ends_internal)) > 0:
+                utils.logger.error(f"{__name__}: You cannot set additional_starts or additional_ends for a graph with cycles.")
+                raise ValueError(f"You cannot set additional_starts or additional_ends for a graph with cycles.")
         self.edge_error_scaling = error_scaling_internal
         # If the error scaling factor is 0, we ignore the edge
         self.edges_to_ignore |= {edge for edge, factor in self.edge_error_scaling.items() if factor == 0}
